@@ -11,6 +11,7 @@ leg C  random programs with up to 4 functions, functions as values, systemPartia
 import itertools
 import json
 import random
+import re
 
 from .. import framework as F
 from .. import gen_jump, realrun, tlc
@@ -42,9 +43,44 @@ HOST_CONFIGS = [
 ]
 
 
-def make(model, globs, limit=80, dbg=False):
-    return realrun.observe({'kind': 'script', 'model': model, 'globals': json.loads(json.dumps(globs)) + [PROBE],
-                            'limit': limit, 'dbg': dbg})
+def spaced_header(rnd, line):
+    """blanks where a function header allows them: around the commas, inside the parentheses, before the colon"""
+    m = re.match(r'^function (\w+)\((.*?)(\.\.\.)?\):$', line)
+    if not m:
+        return line
+    b = lambda: rnd.choice(['', ' ', '  '])      # noqa: E731
+    args = (b() + ',' + b()).join(a.strip() for a in m.group(2).split(',')) if m.group(2) else ''
+    return f"function{rnd.choice([' ', '  '])}{m.group(1)}{b()}({b()}{args}{b() if m.group(3) else ''}{m.group(3) or ''}{b()}){b()}:{b()}"
+
+
+def grpify(x):
+    """make every tree parser-shaped: binary / unary operands that are binary expressions are written in parentheses"""
+    if isinstance(x, list):
+        return [grpify(y) for y in x]
+    if not isinstance(x, dict):
+        return x
+    x = {k: grpify(v) for k, v in x.items()}
+    g = lambda e: {'k': 'grp', 'e': e} if isinstance(e, dict) and e.get('k') == 'bin' else e      # noqa: E731
+    if x.get('k') == 'bin':
+        x['l'], x['r'] = g(x['l']), g(x['r'])
+    elif x.get('k') == 'un':
+        x['e'] = g(x['e']) if x['e'].get('k') == 'bin' else x['e']
+    return x
+
+
+def make(model, globs, limit=80, dbg=False, via_text=None):
+    if via_text is not None:
+        model = grpify(model)
+    c = {'kind': 'script', 'model': model, 'globals': json.loads(json.dumps(globs)) + [PROBE], 'limit': limit, 'dbg': dbg}
+    if via_text is not None:
+        # the REAL side runs what the real parser makes of the source text (function headers written with free blanks);
+        # the specification runs the intended model
+        lines = [spaced_header(via_text, ln) for ln in A.jump_text(model)]
+        try:
+            c['real_model'] = realrun.bare_script.parse_script('\n'.join(lines) + '\n')
+        except Exception:  # pylint: disable=broad-except
+            return None
+    return realrun.observe(c)
 
 
 def rprog(rnd):
@@ -147,7 +183,10 @@ def run(ctx, replay=None):
         cases.append(make([alpha[rnd.randrange(len(alpha))] for _ in range(k)], rnd.choice(HOST_CONFIGS)))
     for _ in range(ctx.pick(2000, 30000)):
         hc = rnd.choice(HOST_CONFIGS[:3] + HOST_CONFIGS[4:]) + [{'name': 'g1', 'val': NUM(1)}]
-        cases.append(make(rprog(rnd), hc, dbg=rnd.random() < 0.3))
+        cases.append(make(rprog(rnd), hc, dbg=rnd.random() < 0.3, via_text=rnd if rnd.random() < 0.4 else None))
+    nparse = sum(1 for c in cases if c is None)
+    cases = [c for c in cases if c is not None]
+    ctx.notes['random_programs_not_renderable_as_text'] = nparse
     cases.extend(expr_shadow_cases(rnd, ctx.pick(400, 4000)))
     F.judge(ctx, 'Trace_Core', cases, c08.canaries, invariants=c08.INVS, describe=c03.describe,
             key_fields=('kind', 'model', 'expr', 'globals', 'locals'), nontrivial=lambda c: True)
